@@ -34,8 +34,24 @@ pub fn registry() -> Vec<(&'static str, fn(&mut crate::src::ReplaySrc))> {
 
 /// Native-only bounded harnesses (small-scope enumeration; CBMC cannot handle the heap-heavy schema code).
 /// name, body, properties, functions, bound  -- parsed by tools/native_run.py from the `n(` lines below.
+include!("native_family.rs");
 pub fn native_registry() -> Vec<(&'static str, fn(&mut crate::src::EnumSrc))> {
+    let mut v = native_family_registry();
+    v.extend(native_misc_registry());
+    v
+}
+fn native_misc_registry() -> Vec<(&'static str, fn(&mut crate::src::EnumSrc))> {
     vec![
+        // n(nschema_library, "C12", "hand-written WithSchema impls: Vec, tuples, Option, arrays, Box, String, BTreeMap, BTreeSet, VecDeque, Duration", "small-scope values");
+        ("nschema_library", (|s: &mut crate::src::EnumSrc| crate::schemaread::schema_library(s)) as fn(&mut crate::src::EnumSrc)),
+        // n(nschema_result, "C12", "WithSchema for Result<T,R> (get_result_schema); Serialize for Result", "small-scope values");
+        ("nschema_result", (|s: &mut crate::src::EnumSrc| crate::schemaread::schema_result(s)) as fn(&mut crate::src::EnumSrc)),
+        // n(nschema_hashmap_guard, "C12", "WithSchema for HashMap<K,V> (recursion guard)", "small-scope values");
+        ("nschema_hashmap_guard", (|s: &mut crate::src::EnumSrc| crate::schemaread::schema_hashmap_guard(s)) as fn(&mut crate::src::EnumSrc)),
+        // n(nschema_socketaddr, "C12", "WithSchema for SocketAddr; Serialize for SocketAddr", "small-scope values");
+        ("nschema_socketaddr", (|s: &mut crate::src::EnumSrc| crate::schemaread::schema_socketaddr(s)) as fn(&mut crate::src::EnumSrc)),
+        // n(nschema_evermid_old, "C12", "derive WithSchema: variants filtered by version (EVerMid at version 1)", "all values representable at version 1");
+        ("nschema_evermid_old", (|s: &mut crate::src::EnumSrc| crate::schemaread::schema_evermid_old(s)) as fn(&mut crate::src::EnumSrc)),
         // n(pairs_diff, "C05,C13,C15", "diff_schema; diff_enum; diff_fields; diff_primitive", "pairs of one-variant enums with <= 2 primitive fields; discriminants/widths from small domains");
         ("pairs_diff", (|s: &mut crate::src::EnumSrc| crate::schemapairs::diff_pairs(s)) as fn(&mut crate::src::EnumSrc)),
         // n(pairs_layout, "C11", "Schema::layout_compatible; SchemaEnum/Variant/Field::layout_compatible", "pairs of one-variant enums with <= 2 primitive fields, two offsets");
